@@ -1378,6 +1378,16 @@ class Interp:
             cv = self.module_constant(mod, name)
             if cv is not None:
                 return cv
+            if isinstance(g, (ast.Dict, ast.List, ast.Tuple, ast.Set, ast.DictComp, ast.ListComp,
+                              ast.SetComp, ast.GeneratorExp, ast.Lambda)) or (
+                    isinstance(g, ast.Call) and isinstance(g.func, ast.Name) and g.func.id in (
+                        'dict', 'tuple', 'list', 'frozenset', 'set', 'zip', 'sorted')
+                    or isinstance(g, ast.Call) and isinstance(g.func, ast.Name)
+                    and g.func.id in mod.classes):
+                from . import purity
+                if name not in purity.mutated_names(mod):
+                    # a table the interpreter should have been able to evaluate
+                    note_gap('global', '%s.%s' % (mod.name, name), self.cur.loc())
             return Opaque('global:%s.%s' % (mod.name, name))
         tgt = mod.imports.get(name)
         if tgt:
@@ -1422,6 +1432,14 @@ class Interp:
             if cls is not None:
                 m = cls.lookup(attr)
                 if m is not None:
+                    deco = {ast.unparse(d).split('.')[-1] for d in m.node.decorator_list}
+                    if deco & {'property', 'cached_property'}:
+                        if m in self.stack or len(self.stack) > 24:
+                            note_gap('callee', m.qualname, self.cur.loc(node))
+                            yield Opaque('call:' + m.qualname, (o,)), s
+                        else:
+                            yield from self.call_function(m, [], {}, s, o)
+                        return
                     yield Bound(o, attr), s
                     return
                 expr, owner = cls.lookup_attr(attr)
@@ -1518,21 +1536,51 @@ class Interp:
         yield from self._display(node, 'set', st)
 
     def ev_Dict(self, node, st):
-        if any(k is None for k in node.keys):
-            raise Unsupported('dict unpacking')
-        for ks, s in self.ev_seq(node.keys, st):
+        keys = [k if k is not None else ast.Constant(value=None) for k in node.keys]
+        for ks, s in self.ev_seq(keys, st):
             if s.raised:
                 yield None, s
                 continue
             for vs, s2 in self.ev_seq(node.values, s):
                 if s2.raised:
                     yield None, s2
-                else:
-                    yield DictV(tuple(zip(ks, vs))), s2
+                    continue
+                d = []
+
+                def put(k, v):
+                    for i_, (kk, _) in enumerate(d):
+                        if kk == k:
+                            d[i_] = (k, v)
+                            return
+                    d.append((k, v))
+                for kn, k, v in zip(node.keys, ks, vs):
+                    if kn is None:          # {**other}
+                        if not isinstance(v, DictV):
+                            raise Unsupported('dict unpacking of an unknown mapping at %s'
+                                              % self.cur.loc(node))
+                        for kk, vv in v.items:
+                            put(kk, vv)
+                    else:
+                        put(k, v)
+                yield DictV(tuple(d)), s2
 
     def ev_ListComp(self, node, st):
         # a comprehension over a *literal* iteration space is unrolled exactly; anything else is
         # an opaque list
+        if isinstance(node, ast.ListComp) and len(node.generators) > 1 and not any(
+                g.is_async for g in node.generators):
+            # [e for a in A for b in B] == flatten([[e for b in B] for a in A])
+            inner = ast.copy_location(ast.ListComp(elt=node.elt, generators=node.generators[1:]),
+                                      node)
+            outer = ast.copy_location(ast.ListComp(elt=inner, generators=node.generators[:1]), node)
+            for v, s in self.ev_ListComp(outer, st):
+                if isinstance(v, Tup) and all(isinstance(x, Tup) for x in v.items):
+                    yield Tup(tuple(y for x in v.items for y in x.items), 'list'), s
+                elif v is None:
+                    yield None, s
+                else:
+                    yield Opaque('comp@%d' % node.lineno, (), 'list'), s
+            return
         if isinstance(node, ast.ListComp) and len(node.generators) == 1 \
                 and not node.generators[0].is_async:
             gen = node.generators[0]
@@ -1604,7 +1652,7 @@ class Interp:
 
     def ev_GeneratorExp(self, node, st):
         # literal iteration space: exact unrolling (the result is used as an ordered sequence)
-        if len(node.generators) == 1 and not node.generators[0].is_async:
+        if not any(g.is_async for g in node.generators):
             as_list = ast.copy_location(ast.ListComp(elt=node.elt, generators=node.generators), node)
             for v, s in self.ev_ListComp(as_list, st):
                 if isinstance(v, Tup):
@@ -1617,7 +1665,7 @@ class Interp:
     ev_SetComp = ev_GeneratorExp
 
     def ev_DictComp(self, node, st):
-        if len(node.generators) == 1 and not node.generators[0].is_async:
+        if not any(g.is_async for g in node.generators):
             pair = ast.copy_location(ast.Tuple(elts=[node.key, node.value], ctx=ast.Load()), node)
             as_list = ast.copy_location(ast.ListComp(elt=pair, generators=node.generators), node)
             for v, s in self.ev_ListComp(as_list, st):
@@ -1679,8 +1727,42 @@ class Interp:
 
     def ev_JoinedStr(self, node, st):
         exprs = [v.value for v in node.values if isinstance(v, ast.FormattedValue)]
-        for vals, s in self.ev_seq(exprs, st):
-            if s.raised:
+        for vals0, s0 in self.ev_seq(exprs, st):
+            if s0.raised:
+                yield None, s0
+                continue
+            yield from self._joined(node, vals0, s0)
+
+    def text_of_value(self, vals, st, node):
+        """Replace value objects in `vals` by the text str() gives for them (their __str__,
+        inlined); yields (vals, state)."""
+        def rec(k, acc, s):
+            if k == len(vals):
+                yield acc, s
+                return
+            v = vals[k]
+            if isinstance(v, EnumV) and v.intlike:
+                yield from rec(k + 1, acc + [v.value], s)
+                return
+            if isinstance(v, (Inst, EnumV)):
+                m = v.cls.lookup('__str__') or v.cls.lookup('__format__')
+                if m is not None and m.name == '__str__' and m not in self.stack:
+                    for r, s2 in self.call_function(m, [], {}, s, v):
+                        if s2.raised:
+                            yield None, s2
+                        else:
+                            yield from rec(k + 1, acc + [r], s2)
+                    return
+                if isinstance(v, EnumV):
+                    yield from rec(k + 1, acc + [Str.lit('%s.%s' % (v.cls.name, v.name))], s)
+                    return
+                note_gap('format', describe(v), self.cur.loc(node))
+            yield from rec(k + 1, acc + [v], s)
+        yield from rec(0, [], st)
+
+    def _joined(self, node, vals0, s0):
+        for vals, s in self.text_of_value(list(vals0), s0, node):
+            if vals is None:
                 yield None, s
                 continue
             parts, it = [], iter(vals)
@@ -1963,6 +2045,16 @@ class Interp:
                         for b_, s3 in self.branch(i, s2):
                             yield (keyed[b_] if b_ in keyed else ints[int(b_)]), s3
                         continue
+                if isinstance(o, DictV) and self._const_key(num_of(i)) and all(
+                        self._const_key(k) for k, _ in o.items) and not any(
+                            k == num_of(i) for k, _ in o.items):
+                    yield None, s2.raising('KeyError')
+                    continue
+                if isinstance(o, Tup) and isinstance(num_of(i), Sym) and num_of(i).is_const() and \
+                        num_of(i).const_value().denominator == 1 and not (
+                            -len(o.items) <= int(num_of(i).const_value()) < len(o.items)):
+                    yield None, s2.raising('IndexError')
+                    continue
                 yield self.item_of(o, i), s2
 
     def item_of(self, o, i):
@@ -2288,6 +2380,12 @@ class Interp:
             if r is not None:
                 yield from r
                 return
+        if isinstance(f, Bound) and isinstance(f.obj, (Inst, EnumV)):
+            r = self.call_value_method(f.obj, f.name, args, kwargs, st, node)
+            if r is not None:
+                yield from r
+                return
+            note_gap('method', '%s.%s' % (describe(f.obj), f.name), self.cur.loc(node))
         if isinstance(f, Bound):
             r = self.call_method(f.obj, f.name, args, kwargs, st, node)
             if r is not None:
@@ -2301,11 +2399,6 @@ class Interp:
             note_gap('instance', f.qual, self.cur.loc(node))
             yield Opaque('new:' + f.qual, tuple(args), 'obj'), st
             return
-        if isinstance(f, Bound) and isinstance(f.obj, (Inst, EnumV)):
-            r = self.call_value_method(f.obj, f.name, args, kwargs, st, node)
-            if r is not None:
-                yield from r
-                return
         if isinstance(f, Bound) and isinstance(f.obj, ClassRef):
             m = f.obj.cls.lookup(f.name)
             if m is not None and m not in self.stack and self.hooks.inline(m, len(self.stack)):
@@ -2314,6 +2407,12 @@ class Interp:
         # unknown callee: opaque result, recorded as an effect
         if _gap_callee(f):
             note_gap('callee', describe(f), self.cur.loc(node))
+        elif isinstance(f, ExtRef) and f.dotted.split('.')[0] in (
+                'builtins', 'itertools', 'functools', 'operator', 'collections') and \
+                f.dotted not in ('builtins.print', 'builtins.open', 'builtins.input',
+                                 'builtins.id', 'builtins.hash', 'builtins.repr'):
+            # a pure library function the interpreter has no model for
+            note_gap('library', f.dotted, self.cur.loc(node))
         yield Opaque('call:' + describe(f), tuple(args)), st.effect(
             Effect('call', f, tuple(args), node.lineno, self.cur.qualname))
 
@@ -2543,6 +2642,10 @@ class Interp:
             if a == NONE:
                 return [(None, st.raising('TypeError').note(('none-deref', 'len()', node.lineno)))]
             return [(Sym.func('LEN', _wrap(a)), st)]
+        if name in ('str', 'format') and len(args) == 1 and isinstance(args[0], (Inst, EnumV)) \
+                and not (isinstance(args[0], EnumV) and args[0].intlike and name == 'str'):
+            return ((vs[0], s_) if vs is not None else (None, s_)
+                    for vs, s_ in self.text_of_value([args[0]], st, node))
         if name == 'str' and len(args) == 1:
             a = args[0]
             if isinstance(a, Str) or type_of(a) == 'str':
@@ -2591,6 +2694,8 @@ class Interp:
             return [(Tup(tuple(Tup(tuple(xs)) for xs in zip(*[a.items for a in args])), 'list'), st)]
         if name == 'reversed' and len(args) == 1 and isinstance(args[0], Tup):
             return [(Tup(tuple(reversed(args[0].items)), 'list'), st)]
+        if name == 'iter' and len(args) == 1 and self.literal_items(args[0]) is not None:
+            return [(Tup(tuple(self.literal_items(args[0])), 'list'), st)]
         if name == 'next' and args and isinstance(args[0], Tup):
             if args[0].items:
                 return [(args[0].items[0], st)]
@@ -2660,6 +2765,8 @@ class Interp:
         if name == 'sorted' and len(args) == 1 and not kwargs and \
                 self.literal_items(args[0]) is not None:
             items = list(self.literal_items(args[0]))
+            if len(items) <= 1:
+                return [(Tup(tuple(items), 'list'), st)]
             if all(isinstance(x, Sym) for x in items):
                 if all(x.is_const() for x in items):
                     return [(Tup(tuple(sorted(items, key=lambda x: x.const_value())), 'list'), st)]
@@ -3002,7 +3109,8 @@ def fold_cond(c):
         v = c.v
         if v == NONE:
             return True
-        if isinstance(v, (Sym, Str, Tup, DictV, ObjRef)) or isinstance(v, COND_TYPES):
+        if isinstance(v, (Sym, Str, Tup, DictV, ObjRef, Inst, EnumV, Closure, FuncRef, ClassRef,
+                          ExtRef)) or isinstance(v, COND_TYPES):
             return False
         if isinstance(v, Const):
             return False
